@@ -8,16 +8,31 @@
       shown necessary by a refutation without it), and leaves every other entry alone;
     - creating structure (get-or-create of a table, the only way tables appear in relation-free
       worlds) preserves the invariant "every registered entry lists exactly the tables the
-      unregistered walk selects" (tolerant form that survives the window between createArchetype and
-      createTable), hence a cached and an uncached query walk the same set of tables;
+      unregistered walk selects" (tolerant form that survives the window between the creation of an
+      archetype record and of its table inside createArchetype), hence a cached and an uncached query walk the same set of tables;
     - unregistering removes exactly that entry, leaves the heap object intact (open queries of that
       filter keep iterating their own entry: the repaired pointer semantics) and marks the filter
       unregistered.
-    Not covered by theorems: relation tables (freeing / recycling / per-query targets), Reset,
-    Shrink — `cache` correspondence stream, which compares every cache entry's table list with the
-    model after every step, and runs registered and unregistered twins through the same queries. *)
+    - OVER HISTORIES (StorageD.v, relation-free tier): for every history of the core operations,
+      queries, filter creation, registration and unregistration the cache is exact in every
+      reachable state ([C05_cache_exact_after_every_history]);
+    - WORLDS WITH RELATION COMPONENTS (Rel2Cache.v), for EVERY state satisfying the relation-tier
+      invariant St2 (freed and recycled tables, targets that died, included): a registered filter
+      and an identical unregistered one, with the same fixed relation targets and any extra targets
+      passed per query, select the same tables (the cached walk skips empty tables, the uncached one
+      lists them), have the same Count, yield the same entities by iteration (as a multiset) and
+      by EntityAt (same set; indices may differ because the table order differs), and the same
+      batch selection ([C05_rel_*]). Hypotheses beyond St2: the component index is exact (an
+      invariant: StorageD / Rel2Cache [r2k_cidx_*]), every relation-free archetype matching the
+      filter has its table (an invariant since the repair of createArchetype: [archs_tabled_norel];
+      shown necessary on the unrepaired model), and the fixed relations name relation components
+      (guaranteed by the Go API; refuted without it on a model-only script).
+    Not covered by theorems: preservation of St2 by registration/unregistration in relation worlds
+    and by the batch operations (see C04) — `cache` correspondence stream, which compares every cache
+    entry's table list with the model after every step and runs registered and unregistered twins
+    through the same queries; the invariant (incl. its cache clause) is executed on every stream state. *)
 From Ark Require Import Model.Base Model.Mask Model.Pool Model.Util Model.World Model.Run.
-From Ark Require Import Proofs.WF Proofs.StorageA Proofs.CacheProofs Properties.Common.
+From Ark Require Import Proofs.WF Proofs.StorageA Proofs.CacheProofs Proofs.StorageC Proofs.StorageD Proofs.Rel2Defs Proofs.Rel2Cache Properties.Common.
 
 Theorem C05_register_fills_exact : forall s fi f, St s -> nth_error (w_filters s) fi = Some f -> f_cache f = None ->
   match filter_register fi s with
@@ -77,6 +92,23 @@ Definition cache_world : W :=
 Example C05_cache_world : map ce_tables (w_cheap cache_world) = [[1; 2; 3]].
 Proof. vm_compute. reflexivity. Qed.
 
-Definition C05_all := (C05_register_fills_exact, C05_table_creation_step_exact, C05_cache_invariant_preserved_by_table_creation,
+(** Over histories (relation-free tier) and for every St2 state (relation worlds): statements in
+    StorageD.v / Rel2Cache.v. *)
+Definition C05_cache_exact_after_every_history := reachable_cache_exact.
+Definition C05_rel_cached_tables_exact := r2k_cached_tables_exact.
+Definition C05_rel_batch_selection_same := r2k_batch_selection_same.
+Definition C05_rel_count_same := r2k_count_same.
+Definition C05_rel_entities_same := r2k_entities_same.
+Definition C05_rel_iteration_same := r2k_iteration_same.
+Definition C05_rel_entity_at_same := r2k_entity_at_same.
+Definition C05_rel_only_difference_is_a_missing_table := r2k_count_same_gen.
+Theorem C05_rel_tabled_is_an_invariant : forall s f, archs_tabled_norel s -> r2k_tabled s f.
+Proof. intros s f H aid a Ha _ Hn. exact (H aid a Ha Hn). Qed.
+Definition C05_rel_examples := (r2k_ex_values, r2k_ex_shapes, r2k_ex_apply, r2k_fuzz_1, r2k_untabled_refutes, r2k_nonrel_refutes).
+
+Definition C05_all := (C05_cache_exact_after_every_history, C05_rel_cached_tables_exact, C05_rel_batch_selection_same, C05_rel_count_same,
+  C05_rel_entities_same, C05_rel_iteration_same, C05_rel_entity_at_same, C05_rel_only_difference_is_a_missing_table,
+  C05_rel_tabled_is_an_invariant, C05_rel_examples,
+  C05_register_fills_exact, C05_table_creation_step_exact, C05_cache_invariant_preserved_by_table_creation,
   C05_tolerant_invariant_is_exact, C05_cached_and_uncached_walk_same_tables, C05_unregister_exact).
 Print Assumptions C05_all.
